@@ -55,7 +55,8 @@ Record block := {
   b_no : N;                        (* block number inside the piece *)
   b_off : N; b_len : N;
   b_queued : list N;               (* peers with a QUEUED transfer (Block::m_queued) *)
-  b_trans : list transfer;         (* Block::m_transfers, in order *)
+  b_stale : list transfer;         (* finished transfers left in m_transfers by earlier, hash-failed attempts (in front) *)
+  b_trans : list transfer;         (* the rest of Block::m_transfers, in order: transfers of the current attempt *)
   b_leader : option N;             (* Block::m_leader (peer) *)
   b_failed : list (list N * N);    (* BlockFailed: data seen after hash failures, reference counts *)
   b_cur : option N                 (* BlockFailed::m_current *)
@@ -98,6 +99,10 @@ Variable H : list N -> list N.          (* SHA-1 *)
 Variable expected : N -> list N.        (* digests in the torrent *)
 Variable npieces : N.
 Variable psize : N -> N.                (* piece sizes *)
+(* Block::insert of the tree: false = a peer with ANY transfer left in m_transfers is refused (old tree); true = the finished
+   leftovers of earlier hash-failed attempts do not count (tree with the stale-transfer repair). Decided by a behavioural
+   probe of the compiled code (harness/c01.cc --probe). *)
+Variable repaired : bool.
 
 Definition bs : N := Params.c01_block_size.
 
@@ -146,9 +151,9 @@ Fixpoint mk_blocks_from (i : N) (no off : N) (size : N) (fuel : nat) : list bloc
   | O => []
   | S k =>
       if size <=? bs
-      then [ {| b_idx := i; b_no := no; b_off := off; b_len := size; b_queued := []; b_trans := [];
+      then [ {| b_idx := i; b_no := no; b_off := off; b_len := size; b_queued := []; b_stale := []; b_trans := [];
                 b_leader := None; b_failed := []; b_cur := None |} ]
-      else {| b_idx := i; b_no := no; b_off := off; b_len := bs; b_queued := []; b_trans := [];
+      else {| b_idx := i; b_no := no; b_off := off; b_len := bs; b_queued := []; b_stale := []; b_trans := [];
               b_leader := None; b_failed := []; b_cur := None |} :: mk_blocks_from i (no + 1) (off + bs) (size - bs) k
   end.
 Definition mk_blocks (i : N) : list block :=
@@ -190,31 +195,31 @@ Definition erase_tr (p : N) (x : block) : block :=
         match max_pos_tr nl None with
         | Some t =>
             {| b_idx := b_idx x; b_no := b_no x; b_off := b_off x; b_len := b_len x; b_queued := b_queued x;
-               b_trans := upd_tr (t_peer t) (fun u => {| t_peer := t_peer u; t_state := TLeader; t_pos := t_pos u |}) (pre ++ nl ++ others);
+               b_stale := b_stale x; b_trans := upd_tr (t_peer t) (fun u => {| t_peer := t_peer u; t_state := TLeader; t_pos := t_pos u |}) (pre ++ nl ++ others);
                b_leader := Some (t_peer t); b_failed := b_failed x; b_cur := b_cur x |}
         | None =>
             (* no new leader: remove_erased_transfers *)
             {| b_idx := b_idx x; b_no := b_no x; b_off := b_off x; b_len := b_len x; b_queued := b_queued x;
-               b_trans := filter (fun t => negb (is_erased_t t)) (pre ++ nl ++ others);
+               b_stale := b_stale x; b_trans := filter (fun t => negb (is_erased_t t)) (pre ++ nl ++ others);
                b_leader := None; b_failed := b_failed x; b_cur := b_cur x |}
         end
       else
         {| b_idx := b_idx x; b_no := b_no x; b_off := b_off x; b_len := b_len x; b_queued := b_queued x;
-           b_trans := tr'; b_leader := b_leader x; b_failed := b_failed x; b_cur := b_cur x |}
+           b_stale := b_stale x; b_trans := tr'; b_leader := b_leader x; b_failed := b_failed x; b_cur := b_cur x |}
   | None =>
       {| b_idx := b_idx x; b_no := b_no x; b_off := b_off x; b_len := b_len x; b_queued := b_queued x;
-         b_trans := tr'; b_leader := None; b_failed := b_failed x; b_cur := b_cur x |}
+         b_stale := b_stale x; b_trans := tr'; b_leader := None; b_failed := b_failed x; b_cur := b_cur x |}
   end.
 
 Definition set_queued (x : block) (q : list N) : block :=
   {| b_idx := b_idx x; b_no := b_no x; b_off := b_off x; b_len := b_len x; b_queued := q;
-     b_trans := b_trans x; b_leader := b_leader x; b_failed := b_failed x; b_cur := b_cur x |}.
+     b_stale := b_stale x; b_trans := b_trans x; b_leader := b_leader x; b_failed := b_failed x; b_cur := b_cur x |}.
 Definition set_trans (x : block) (tr : list transfer) (ld : option N) : block :=
   {| b_idx := b_idx x; b_no := b_no x; b_off := b_off x; b_len := b_len x; b_queued := b_queued x;
-     b_trans := tr; b_leader := ld; b_failed := b_failed x; b_cur := b_cur x |}.
+     b_stale := b_stale x; b_trans := tr; b_leader := ld; b_failed := b_failed x; b_cur := b_cur x |}.
 Definition set_failed (x : block) (f : list (list N * N)) (c : option N) : block :=
   {| b_idx := b_idx x; b_no := b_no x; b_off := b_off x; b_len := b_len x; b_queued := b_queued x;
-     b_trans := b_trans x; b_leader := b_leader x; b_failed := f; b_cur := c |}.
+     b_stale := b_stale x; b_trans := b_trans x; b_leader := b_leader x; b_failed := f; b_cur := c |}.
 
 Definition with_blocks (s : state) (bl : list block) : state :=
   {| store := store s; completed := completed s; blocks := bl; attempts := attempts s; hashing := hashing s;
@@ -260,7 +265,7 @@ Definition invalidate_curs (l : list (N * cur)) (x : block) : list (N * cur) :=
 
 Definition complete_block (x : block) : block :=
   {| b_idx := b_idx x; b_no := b_no x; b_off := b_off x; b_len := b_len x; b_queued := [];
-     b_trans := filter is_leader_t (b_trans x); b_leader := b_leader x; b_failed := b_failed x; b_cur := b_cur x |}.
+     b_stale := b_stale x; b_trans := filter is_leader_t (b_trans x); b_leader := b_leader x; b_failed := b_failed x; b_cur := b_cur x |}.
 
 (* ---------- data for a live transfer ---------- *)
 Definition set_pos (p : N) (st : tstate) (pos : N) (l : list transfer) : list transfer :=
@@ -374,7 +379,7 @@ Fixpoint retry_blocks (i : N) (bl : list block) (pc : list N) : list block * lis
 
 Definition fail_leader (x : block) : block :=
   {| b_idx := b_idx x; b_no := b_no x; b_off := b_off x; b_len := b_len x; b_queued := b_queued x;
-     b_trans := b_trans x; b_leader := None; b_failed := b_failed x; b_cur := None |}.
+     b_stale := b_stale x ++ b_trans x; b_trans := []; b_leader := None; b_failed := b_failed x; b_cur := None |}.
 
 Definition hash_failed (s : state) (i : N) : state :=
   if attempt_of s i =? 0 then
@@ -404,6 +409,10 @@ Definition corrupt (s : state) (p : N) : state :=
                failc := (p, c) :: filter (fun a => negb (fst a =? p)) (failc s) |} in
   if (max_failed <? c) && memN p (conns s) then disc s1 p else s1.
 
+(* Block::insert's refusal (beyond find_queued): a transfer of this peer in m_transfers *)
+Definition ins_refused (p : N) (x : block) : bool :=
+  has_tr p (b_trans x) || (negb repaired && has_tr p (b_stale x)).
+
 (* ---------- the acceptor ---------- *)
 Definition accept (s : state) (e : event) : option state :=
   match pmark s, e with
@@ -429,7 +438,7 @@ Definition accept (s : state) (e : event) : option state :=
   | None, EIns p i b =>
       match find_block s i b with
       | Some x =>
-          if memN p (conns s) && negb (finished x) && negb (memN p (b_queued x)) && negb (has_tr p (b_trans x)) then
+          if memN p (conns s) && negb (finished x) && negb (memN p (b_queued x)) && negb (ins_refused p x) then
             Some (with_blocks s (upd_block (blocks s) i b (fun y => set_queued y (b_queued y ++ [p]))))
           else None
       | None => None
